@@ -138,6 +138,18 @@ func (c *EvalCtx) evalCall(x *SCall) (TV, error) {
 		if err != nil {
 			return TV{}, err
 		}
+		asTree := func(v TV) *litTree {
+			if v.Tree != nil {
+				return v.Tree
+			}
+			if v.Lit != nil {
+				return &litTree{leaf: v.Lit}
+			}
+			return nil
+		}
+		if ta, tb := asTree(a), asTree(b); ta != nil && tb != nil {
+			return TV{Tree: &litTree{cond: cnd, a: ta, b: tb}}, nil
+		}
 		if a, err = c.coerce(a, b); err != nil {
 			return TV{}, err
 		}
